@@ -1467,4 +1467,121 @@ example : (chainTable.filter (fun e => e.x509.isSome)).length = 10 := by decide
 example : x509Leaf ⟨hardcoded, none⟩ .dflt (63900000000 * second) (63900000000 * second) ⟨0, 0⟩
     (acmeSignOpts (acmeOrderDates (63900000000 * second) day 0 0) 0) = .rej .tooLong := by decide
 
+/-! ### claims conversion ca.json ↔ linkedca, every duration -/
+
+
+/-- **conv_preserves_tls.** `claimsToCertificates ∘ claimsToLinkedca` (the ca.json → admin DB migration and
+    every reload, for every provisioner type: the type-specific code only passes the claims through) keeps
+    the three X.509 duration pointers exactly, for every subset that is set and every value. -/
+theorem conv_preserves_tls (c : CClaims) :
+    ∃ c', toCert (toLinked (some c)) = some c' ∧
+      c'.d.minTLS = c.d.minTLS ∧ c'.d.maxTLS = c.d.maxTLS ∧ c'.d.defTLS = c.d.defTLS := by
+  refine ⟨_, rfl, ?_, ?_, ?_⟩ <;>
+    (simp only [Dur3.any]
+     cases h1 : c.d.minTLS <;> cases h2 : c.d.maxTLS <;> cases h3 : c.d.defTLS <;> simp)
+
+/-- **conv_ssh_enabled_exact.** With `enableSSHCA: true` the round trip is the identity on all nine durations
+    and on the flag. -/
+theorem conv_ssh_enabled_exact (c : CClaims) (h : c.enableSSH = some true) :
+    toCert (toLinked (some c)) = some c := by
+  obtain ⟨d, e⟩ := c
+  obtain ⟨a1, a2, a3, a4, a5, a6, a7, a8, a9⟩ := d
+  simp only at h
+  subst h
+  simp only [toLinked, toCert, Option.map, Dur3.any]
+  cases a1 <;> cases a2 <;> cases a3 <;> cases a4 <;> cases a5 <;> cases a6 <;> cases a7 <;> cases a8 <;> cases a9 <;> rfl
+
+/-- **conv_ssh_not_enabled.** Without `enableSSHCA: true` the SSH block is not written: the SSH durations come
+    back unset and — observation — an explicit `enableSSHCA: false` comes back as "not set", i.e. the provisioner
+    inherits the authority-level value after the migration. -/
+theorem conv_ssh_not_enabled (c : CClaims) (h : c.enableSSH ≠ some true) :
+    ∃ c', toCert (toLinked (some c)) = some c' ∧ c'.enableSSH = none ∧
+      c'.d.minUser = none ∧ c'.d.maxUser = none ∧ c'.d.defUser = none ∧
+      c'.d.minHost = none ∧ c'.d.maxHost = none ∧ c'.d.defHost = none := by
+  refine ⟨_, rfl, ?_⟩
+  simp [toLinked, toCert, if_neg h]
+
+theorem conv_explicit_ssh_disable_lost :
+    ¬ ∀ c : CClaims, ∃ c', toCert (toLinked (some c)) = some c' ∧ c'.enableSSH = c.enableSSH := by
+  intro h
+  obtain ⟨c', h1, h2⟩ := h { enableSSH := some false }
+  simp [toLinked, toCert, Dur3.any] at h1
+  subst h1
+  simp at h2
+
+/-- **conv_idempotent.** What the admin database holds is stable: converting it to the in-memory form and back
+    changes nothing any more. -/
+theorem conv_idempotent (c : Option CClaims) : toLinked (toCert (toLinked c)) = toLinked c := by
+  cases c with
+  | none => rfl
+  | some c =>
+    by_cases h : c.enableSSH = some true
+    · rw [conv_ssh_enabled_exact c h]
+    · obtain ⟨d, e⟩ := c
+      obtain ⟨a1, a2, a3, a4, a5, a6, a7, a8, a9⟩ := d
+      simp only at h
+      simp only [toLinked, toCert, Option.map, Dur3.any, if_neg h]
+      cases a1 <;> cases a2 <;> cases a3 <;> simp
+
+/-- the migration function used by `migration_preserves_effective` is this round trip -/
+theorem migrateClaims_eq_conv (ssh : Bool) (c : Option Claims) :
+    migrateClaims ssh c =
+      (toCert (toLinked (c.map fun d => { d := d, enableSSH := if ssh then some true else none }))).map (·.d) := by
+  cases c with
+  | none => rfl
+  | some d =>
+    cases ssh with
+    | true =>
+      have := conv_ssh_enabled_exact { d := d, enableSSH := some true } rfl
+      simp only [Option.map, if_true] at this ⊢
+      rw [this]; rfl
+    | false =>
+      obtain ⟨a1, a2, a3, a4, a5, a6, a7, a8, a9⟩ := d
+      simp only [migrateClaims, toLinked, toCert, Option.map, Dur3.any]
+      cases a1 <;> cases a2 <;> cases a3 <;> simp
+
+
+/-! ### the admin API's claim validation -/
+
+
+/-- **admin_validate_sound.** What the admin API's `ValidateDurations` guarantees for a block it accepts: every
+    set duration is non-negative, `min ≤ max` and `min ≤ default` where both are set. -/
+theorem admin_validate_sound (d : Dur3) (h : validateDurations d = true) :
+    (∀ v, d.min = some v → 0 ≤ v) ∧ (∀ v, d.max = some v → 0 ≤ v) ∧ (∀ v, d.dflt = some v → 0 ≤ v) ∧
+    (∀ a b, d.min = some a → d.max = some b → a ≤ b) ∧ (∀ a b, d.min = some a → d.dflt = some b → a ≤ b) := by
+  obtain ⟨mn, mx, df⟩ := d
+  unfold validateDurations at h
+  cases mn <;> cases mx <;> cases df <;> simp at h ⊢ <;> omega
+
+/-- … in particular an SSH default duration set through the admin API is non-negative: provisioners created or
+    updated there satisfy the configuration hypothesis of `ssh_no_crash` (ca.json provisioners do not:
+    `claims_ssh_unchecked`). -/
+theorem admin_validated_ssh_default_nonneg (l : LClaims) (e : Bool) (u h : Option Dur3)
+    (hs : l.ssh = some (e, u, h)) (hv : validateLClaims (some l) = true) :
+    (∀ d v, u = some d → d.dflt = some v → 0 ≤ v) ∧ (∀ d v, h = some d → d.dflt = some v → 0 ≤ v) := by
+  unfold validateLClaims at hv
+  simp only [hs, Bool.and_eq_true] at hv
+  obtain ⟨_, hu, hh⟩ := hv
+  constructor
+  · intro d v hd hdv
+    subst hd
+    exact (admin_validate_sound d hu).2.2.1 v hdv
+  · intro d v hd hdv
+    subst hd
+    exact (admin_validate_sound d hh).2.2.1 v hdv
+
+/-- **admin_validate_default_above_max.** The check that should refuse `default > max` repeats `min > default`:
+    a block with default 48 h and maximum 24 h is accepted.  (For X.509 the provisioner then fails to initialise —
+    `Claimer.Validate`, answered 500 instead of 400; for SSH nothing refuses it and every default-duration SSH
+    sign is refused as too long.) -/
+theorem admin_validate_default_above_max :
+    validateDurations { max := some day, dflt := some (2 * day) } = true ∧
+    ¬ ∀ d : Dur3, validateDurations d = true → ∀ a b, d.dflt = some a → d.max = some b → a ≤ b := by
+  refine ⟨by decide, ?_⟩
+  intro h
+  have := h { max := some day, dflt := some (2 * day) } (by decide) (2 * day) day rfl rfl
+  revert this
+  decide
+
+
 end Verif.Validity
